@@ -30,7 +30,7 @@ RULE = ("seeded random ASTs over + - * / (strings) and + - * / min max consumpti
         "sub-expressions, large values and non-dyadic rationals. distinct = canonical program JSON; non-trivial = "
         ">=2 binary operators and >=1 round compared with a discriminating bound")
 PAIRS = [f"pair:{p}{s}{c}" for p in fm.BINOPS for s in "LR" for c in fm.BINOPS]
-REQUIRED_BUCKETS = ["mode:string", "mode:builder", "mode:api", "redundant-parens", "same-engine-twice",
+REQUIRED_BUCKETS = ["mode:string", "mode:builder", "mode:api", "mode:api3", "redundant-parens", "same-engine-twice",
                     "api-min-max", "api-consumption-production", "api-constant", "subexpression-zero"] + PAIRS
 REQUIRED_COUNTERS = ["rounds_compared", "programs_run"]
 ASSUMPTIONS = ["inputs finite; outputs compared per input timestamp; one output per input vector"]
@@ -43,14 +43,15 @@ def budget(tier: str) -> dict[str, Any]:
 
 
 def gen(rng: Any, tier: str, i: int) -> Any:
-    mode = rng.choice(["string", "string", "builder", "api", "api"])
+    mode = rng.choice(["string", "string", "builder", "api", "api", "api3"])
     api = mode == "api"
-    nleaf = rng.randint(1, 4)
-    ast = fm.gen_ast(rng, rng.randint(1, 6), nleaf, api, [12])
+    nleaf = rng.randint(1, 4) if mode != "api3" else rng.randint(1, 2)
+    # (3-phase engines take no constants and have no unary operators in their typed API: plain + - * / min max trees)
+    ast = fm.gen_ast(rng, rng.randint(1, 6), nleaf, api, [12]) if mode != "api3" else _gen_ast3(rng, rng.randint(1, 4), nleaf)
     if ast[0] == "leaf":
         ast = ["bin", rng.choice(fm.BINOPS), ast, ["leaf", rng.randrange(nleaf)]]
     prog: dict[str, Any] = {"mode": mode, "nleaf": nleaf, "ast": ast}
-    if not api:
+    if mode in ("string", "builder"):
         prog["src"] = fm.to_str(ast, rng)
     vecs = []
     for _ in range(8):
@@ -67,6 +68,57 @@ def gen(rng: Any, tier: str, i: int) -> Any:
         vecs.append(v)
     prog["vectors"] = vecs
     return prog
+
+
+def _gen_ast3(rng: Any, depth: int, nleaf: int) -> Any:
+    if depth == 0 or rng.random() < 0.25:
+        return ["leaf", rng.randrange(nleaf)]
+    op = rng.choice(fm.BINOPS + ["min", "max"])
+    return ["bin", op, _gen_ast3(rng, depth - 1, nleaf), _gen_ast3(rng, depth - 1, nleaf)]
+
+
+def _check3(prog: dict[str, Any], out: dict[str, Any], rec: Any) -> None:
+    """3-phase composition: every phase of every output equals the expression on that phase's inputs."""
+    from datetime import timedelta
+
+    ast = prog["ast"]
+    compared = 0
+    for k, vec in enumerate(prog["vectors"]):
+        got = out["rounds"][k] if k < len(out["rounds"]) else []
+        w = {"program": fm_repr(ast), "mode": "api3", "round": k, "inputs": vec, "outputs": [(str(t), v) for t, v in got]}
+        refs = []
+        skip = False
+        for f in fm.PHASE_FACTORS:
+            vals = [F(x) * F(f) for x in vec]
+            if fm.div_by_zero_somewhere(ast, vals):
+                skip = True
+                break
+            try:
+                refs.append(fm.evb(ast, vals))
+            except fm.IllConditioned:
+                skip = True
+                break
+        if skip or any(r is fm.BOT for r in refs):
+            rec.count("rounds_with_division_by_zero(routed to C13)")
+            continue
+        if len(got) != 1:
+            rec.violation("not-exactly-one-output-for-input-timestamp", w)
+            continue
+        ts, vals3 = got[0]
+        if ts != fm.T0 + timedelta(seconds=k):
+            rec.violation("output-timestamp-differs-from-input-timestamp", w)
+            continue
+        for p, (val, (exp, bound)) in enumerate(zip(vals3, refs)):
+            if val is None:
+                rec.violation("none-output-for-finite-defined-expression", {**w, "phase": p + 1})
+                break
+            if abs(F(val) - exp) > 4 * bound + F(1, 10 ** 300):
+                rec.violation("value-differs-from-expression", {**w, "phase": p + 1, "got": val, "expected": float(exp)})
+                break
+        compared += 1
+        rec.count("rounds_compared")
+    rec.nontrivial(_count_bin(ast) >= 2 and compared >= 1)
+    rec.observed({"formula": "3-phase " + fm_repr(ast), "rounds_compared": compared})
 
 
 def _has(a: Any, pred: Any) -> bool:
@@ -119,7 +171,7 @@ def check(prog: dict[str, Any], rec: Any) -> None:
     fm.op_pairs(ast, pairs)
     for p in pairs:
         rec.bucket(p)
-    if prog["mode"] != "api" and ("((" in prog["src"].replace(" ", "") or prog["src"].strip().startswith("(")):
+    if prog["mode"] in ("string", "builder") and ("((" in prog["src"].replace(" ", "") or prog["src"].strip().startswith("(")):
         rec.bucket("redundant-parens")
     lv = _leaves(ast, [])
     if len(lv) != len(set(lv)):
@@ -135,6 +187,9 @@ def check(prog: dict[str, Any], rec: Any) -> None:
     mon = LoopMonitor()
     run_virtual(lambda: fm.run_program(prog, out), monitor=mon)
     rec.count("programs_run")
+    if prog["mode"] == "api3":
+        _check3(prog, out, rec)
+        return
     compared = 0
     discriminating = 0
     shown = []
